@@ -217,55 +217,11 @@ pub fn run_c07(tier: Tier) -> Report {
         rep.add_transitions(n_f.load(Ordering::Relaxed));
         rep.extra("one_odd_chroma_sample_pictures", json!(n_f.load(Ordering::Relaxed)));
     }
-    // (G) neighbouring groups of four pixels: the second group differs from the first in one or two of
-    // its eight sample slots (four luma, two Cb, two Cr), every pair of slots x all 65536 values of
-    // the pair x four base groups, side by side in a row (8x2) and one below the other (4x4): a
-    // result carried from one group to the next under a comparison that is not injective shows here
+    // (G) neighbouring groups differing in one or two sample slots (see `neighbour_group_sweep`)
     {
-        let bases: [[u8; 8]; 4] = [[0xFF; 8], [0x80; 8], [16, 125, 200, 235, 90, 144, 240, 128], [0x00; 8]];
-        let pairs: Vec<(usize, usize)> = (0..8usize).flat_map(|i| (i + 1..8).map(move |j| (i, j))).collect();
-        let work: Vec<(usize, usize, usize, usize)> = (0..4usize).flat_map(|b| pairs.iter().flat_map(move |&(i, j)| (0..256usize).map(move |a| (b, i, j, a)))).collect();
-        let n_g = AtomicU64::new(0);
-        work.par_iter().for_each(|&(b, i, j, a)| {
-            let base = bases[b];
-            for v in 0..256usize {
-                let mut g2 = base;
-                g2[i] = a as u8;
-                g2[j] = v as u8;
-                if g2 == base {
-                    continue;
-                }
-                for side_by_side in [true, false] {
-                    // groups in conversion order: base, base, variant, variant (4x4) or base|variant twice (8x2)
-                    let (w, y, cbp, crp): (usize, Vec<u8>, Vec<u8>, Vec<u8>) = if side_by_side {
-                        let row: Vec<u8> = base[..4].iter().chain(g2[..4].iter()).copied().collect();
-                        (8, row.iter().chain(row.iter()).copied().collect(), vec![base[4], base[5], g2[4], g2[5]], vec![base[6], base[7], g2[6], g2[7]])
-                    } else {
-                        (4, base[..4].iter().chain(base[..4].iter()).chain(g2[..4].iter()).chain(g2[..4].iter()).copied().collect(), vec![base[4], base[5], g2[4], g2[5]], vec![base[6], base[7], g2[6], g2[7]])
-                    };
-                    n_g.fetch_add(1, Ordering::Relaxed);
-                    match catch(|| yuv420_to_rgba(&y, &cbp, &crp, w)) {
-                        Err(p) => rep.violation(&crate::evidence::panic_sig(&p), format!("{w}-wide picture of two neighbouring groups: panic {p}"), replay_json(w, &y, &cbp, &crp)),
-                        Ok(o) => {
-                            let cw = w / 2;
-                            for k in 0..16usize {
-                                let (x, yy) = (k % w, k / w);
-                                let ci = (yy / 2) * cw + x / 2;
-                                let e = m.conv(y[k], cbp[ci], crp[ci]);
-                                if o.len() != 64 || o[4 * k..4 * k + 4] != e {
-                                    rep.violation_lazy("C07/colour-neighbouring-groups", || {
-                                        (format!("groups {base:?} and {g2:?} (four luma, two Cb, two Cr) {}: pixel ({x},{yy}) converts to {:?}, model {:?}", if side_by_side { "side by side in an 8x2 picture" } else { "one below the other in a 4x4 picture" }, o.get(4 * k..4 * k + 4), e), replay_json(w, &y, &cbp, &crp))
-                                    });
-                                    break;
-                                }
-                            }
-                        }
-                    }
-                }
-            }
-        });
-        rep.add_transitions(n_g.load(Ordering::Relaxed));
-        rep.extra("neighbouring_group_pictures", json!(n_g.load(Ordering::Relaxed)));
+        let n_g = neighbour_group_sweep(&rep, &m, "C07", &[[0xFF; 8], [0x80; 8], [16, 125, 200, 235, 90, 144, 240, 128], [0x00; 8]]);
+        rep.add_transitions(n_g);
+        rep.extra("neighbouring_group_pictures", json!(n_g));
     }
     let n_place = placement_sweep(&rep, &m, "C07", crate::evidence::seed());
     rep.add_transitions(n_place);
@@ -308,6 +264,56 @@ pub fn run_c07(tier: Tier) -> Report {
     rep.sample(json!({"triple": [81, 90, 240], "layout": "x=5 among complementary pixels", "expected_rgba": m.conv(81, 90, 240)}));
     rep.assume("model: 16.16 coefficients = round(real BT.601 constant * 65536), +32768, arithmetic shift, clamp");
     rep
+}
+
+/// (G) neighbouring groups of four pixels: the second group differs from the first in one or two of
+/// its eight sample slots (four luma, two Cb, two Cr), every pair of slots x all 65536 values of
+/// the pair x the given base groups, side by side in a row (8x2) and one below the other (4x4): a
+/// result carried from one group to the next under a comparison that is not injective shows here.
+fn neighbour_group_sweep(rep: &Report, m: &Bt601, prop: &str, bases: &[[u8; 8]]) -> u64 {
+    let pairs: Vec<(usize, usize)> = (0..8usize).flat_map(|i| (i + 1..8).map(move |j| (i, j))).collect();
+    let work: Vec<(usize, usize, usize, usize)> = (0..bases.len()).flat_map(|b| pairs.iter().flat_map(move |&(i, j)| (0..256usize).map(move |a| (b, i, j, a)))).collect();
+    let n_g = AtomicU64::new(0);
+    let sig = format!("{prop}/colour-neighbouring-groups");
+    work.par_iter().for_each(|&(b, i, j, a)| {
+        let base = bases[b];
+        for v in 0..256usize {
+            let mut g2 = base;
+            g2[i] = a as u8;
+            g2[j] = v as u8;
+            if g2 == base {
+                continue;
+            }
+            for side_by_side in [true, false] {
+                // groups in conversion order: base, base, variant, variant (4x4) or base|variant twice (8x2)
+                let (w, y, cbp, crp): (usize, Vec<u8>, Vec<u8>, Vec<u8>) = if side_by_side {
+                    let row: Vec<u8> = base[..4].iter().chain(g2[..4].iter()).copied().collect();
+                    (8, row.iter().chain(row.iter()).copied().collect(), vec![base[4], base[5], g2[4], g2[5]], vec![base[6], base[7], g2[6], g2[7]])
+                } else {
+                    (4, base[..4].iter().chain(base[..4].iter()).chain(g2[..4].iter()).chain(g2[..4].iter()).copied().collect(), vec![base[4], base[5], g2[4], g2[5]], vec![base[6], base[7], g2[6], g2[7]])
+                };
+                n_g.fetch_add(1, Ordering::Relaxed);
+                match catch(|| yuv420_to_rgba(&y, &cbp, &crp, w)) {
+                    Err(p) => rep.violation(&crate::evidence::panic_sig(&p), format!("{w}-wide picture of two neighbouring groups: panic {p}"), replay_json(w, &y, &cbp, &crp)),
+                    Ok(o) => {
+                        let cw = w / 2;
+                        for k in 0..16usize {
+                            let (x, yy) = (k % w, k / w);
+                            let ci = (yy / 2) * cw + x / 2;
+                            let e = m.conv(y[k], cbp[ci], crp[ci]);
+                            if o.len() != 64 || o[4 * k..4 * k + 4] != e {
+                                rep.violation_lazy(&sig, || {
+                                    (format!("groups {base:?} and {g2:?} (four luma, two Cb, two Cr) {}: pixel ({x},{yy}) converts to {:?}, model {:?}", if side_by_side { "side by side in an 8x2 picture" } else { "one below the other in a 4x4 picture" }, o.get(4 * k..4 * k + 4), e), replay_json(w, &y, &cbp, &crp))
+                                });
+                                break;
+                            }
+                        }
+                    }
+                }
+            }
+        }
+    });
+    n_g.load(Ordering::Relaxed)
 }
 
 /// Placement of the three plane slices in memory: every combination of byte offsets 0..8 of the
@@ -452,6 +458,13 @@ pub fn run_c08(tier: Tier) -> Report {
     });
     rep.add_states(shapes.len() as u64 * 8);
     rep.add_nontrivial(nt);
+    // pairing across neighbouring groups: the second group differs from the first in one or two
+    // sample slots (all values), two base groups - each pixel must be converted from its own samples
+    {
+        let n_g = neighbour_group_sweep(&rep, &m, "C08", &[[0xFF; 8], [16, 125, 200, 235, 90, 144, 240, 128]]);
+        rep.add_transitions(n_g);
+        rep.extra("neighbouring_group_pictures", json!(n_g));
+    }
     let n_place = placement_sweep(&rep, &m, "C08", seed);
     rep.add_transitions(n_place);
     rep.add_states(n_place);
